@@ -672,9 +672,20 @@ def check_concat(fx, R):
     want_i = [('.insert', i1, (b_, i2), (c_, i2)) for b_ in ('std::cbegin', 'std::begin') for c_ in ('std::cend', 'std::end')]
     dd = [s_ for s_ in ex if isinstance(s_, tuple) and len(s_) > 1 and s_[1] == d1]
     ii = [s_ for s_ in ex if isinstance(s_, tuple) and len(s_) > 1 and s_[1] == i1]
-    R.form(len(dd) == 1 and dd[0] in want_d, 'T5', 'operator+=:diagnostics', 'diagnostics are combined by %s, expected insert(end(report1), begin(report2), end(report2))' % (dd,),
+    # element-wise append: a range-for over report2.diagnostics that pushes every entry at the back is the range insert; a push guarded by a condition filters the concatenation
+    dloop_all, dloop_filtered = False, None
+    for L_ in [x for x in walk(f['body']) if x.get('k') == 'RangeFor' and deep_unwrap(sx(x.get('range'))) == d2]:
+        ins_ = [y for y in walk(L_['b']) if y.get('k') == 'MCall' and y.get('m') in ('push_back', 'emplace_back') and deep_unwrap(sx(y['obj'])) == d1]
+        guards_ = [y for y in walk(L_['b']) if y.get('k') == 'If' and any(z is i_ for i_ in ins_ for z in walk(y.get('t')))]
+        if ins_ and not guards_:
+            dloop_all = True
+        elif ins_ and guards_:
+            dloop_filtered = pp(guards_[0]['c'])
+    R.form((len(dd) == 1 and dd[0] in want_d) or (dloop_all and not dloop_filtered), 'T5', 'operator+=:diagnostics', 'diagnostics are combined by %s, expected insert(end(report1), begin(report2), end(report2))' % (dd,),
             'append all of report2.diagnostics at the end, in order', fx.rel(f['loc']), 'E-STATE',
-            facts=[(len(dd) == 1 and isinstance(dd[0], tuple) and len(dd[0]) == 5 and dd[0][0] == '.insert' and dd[0][2] in [(b_, d1) for b_ in ('std::begin', 'std::cbegin', '.begin', '.cbegin')] and
+            facts=[(dloop_filtered is not None, 'the diagnostics of the right operand are appended one by one and only when `%s`: the others are dropped, so the result is not the concatenation of the two lists - its '
+                    'length, the positions of the entries and their multiplicity differ (two check-ups with the same name and verdict, the same report appended twice, several default STALE diagnostics)' % (dloop_filtered or '')[:140]),
+                   (len(dd) == 1 and isinstance(dd[0], tuple) and len(dd[0]) == 5 and dd[0][0] == '.insert' and dd[0][2] in [(b_, d1) for b_ in ('std::begin', 'std::cbegin', '.begin', '.cbegin')] and
                     dd[0][3][1:] == (d2,) and dd[0][4][1:] == (d2,),
                     'the diagnostics of report2 are inserted at the BEGINNING of report1: the aggregate no longer lists the diagnostics in the order the reports were added'),
                    (not dd, 'no statement adds the diagnostics of report2 to report1')])
@@ -721,4 +732,5 @@ def check_concat(fx, R):
                 R.holds('T5', 'operator+=:shortcut', 'overwrite only when the left report holds nothing', fx.rel(x['loc']), 'E-STATE')
         else:
             R.undecided('T5', 'operator+=:paths', 'conditional path `%s` with statements %s not recognised' % (cond, inner))
+    rets = [r_ for r_ in rets if not (isinstance(r_, tuple) and r_ and r_[0] in ('&&', '||', '==', '!=', '!'))]        # returns of predicates (lambdas) inside the body are not the function's
     R.form(rets == ['report1'], 'T5', 'operator+=:return', 'returns %s' % (rets,), 'returns the left operand', fx.rel(f['loc']), 'E-STATE')
